@@ -28,6 +28,13 @@ class LvError(Exception):
     pass
 
 
+class LvFalsy(Exception):
+    """An exception whose instances are falsy (defines __len__ returning 0)."""
+
+    def __len__(self):
+        return 0
+
+
 EXC = {
     "ValueError": ValueError,
     "KeyError": KeyError,
@@ -35,6 +42,7 @@ EXC = {
     "SystemExit": SystemExit,
     "KeyboardInterrupt": KeyboardInterrupt,
     "LvError": LvError,
+    "LvFalsy": LvFalsy,
     "OSError": OSError,
     "ZeroDivisionError": ZeroDivisionError,
 }
@@ -355,6 +363,16 @@ def run(spec, tid, *extra):
         elif k == "die_in_gc":
             r = ["ok", tid, None]
             _garbage = DieOnGC(spec["how"], spec["code"])  # noqa: F841 dies when the frame is torn down
+        elif k == "spawn_loop":
+            # short-lived children come and go for d seconds (a worker whose process tree keeps changing)
+            import subprocess
+
+            t_end = time.monotonic() + spec.get("d", 2.0)
+            n = 0
+            while time.monotonic() < t_end:
+                subprocess.run(["true"])
+                n += 1
+            r = ["spawn_loop", tid, n > 0]
         elif k == "endless":
             time.sleep(spec.get("d", 120))
             r = ["endless_finished", tid]
@@ -416,6 +434,8 @@ def expected(spec, tid):
         return ("special", "rendezvous")
     if k == "spawn_subprocess":
         return ("special", "subprocess")
+    if k == "spawn_loop":
+        return ("value", ["spawn_loop", tid, True])
     return ("special", k)
 
 
@@ -472,3 +492,20 @@ def tracker_child(out_path, res_path):
     rt.register(res_path, "file")
     with open(out_path, "w") as f:
         json.dump({"pid": os.getpid(), "tracker_pid": rt._resource_tracker._pid, "tracker_fd": rt._resource_tracker._fd}, f)
+
+
+def mapfn_stop(tag, stop_mod, *args):
+    """Like mapfn but raises StopIteration for some arguments."""
+    _log("task_start", tid="m:%s:%s" % (tag, ",".join(map(str, args))), kind="map", wpid=os.getpid())
+    if args and isinstance(args[0], int) and args[0] % stop_mod == stop_mod - 1:
+        _log("task_end", tid="m:%s:%s" % (tag, ",".join(map(str, args))), exc="StopIteration")
+        raise StopIteration(args[0])
+    r = ["m", tag, list(args)]
+    _log("task_end", tid="m:%s:%s" % (tag, ",".join(map(str, args))))
+    return r
+
+
+def mapfn_stop_ref(tag, stop_mod, *args):
+    if args and isinstance(args[0], int) and args[0] % stop_mod == stop_mod - 1:
+        raise StopIteration(args[0])
+    return ["m", tag, list(args)]
